@@ -7,14 +7,14 @@ import Amgcl.Model.Rsqrt
 /-!
 Handlers for the C16 family (harness/h_direct.cpp):
 
-* `sky_solve  kind A perm b y0 x0`   scalar skyline LU: constructor (with the ordering `perm` as input) + `operator()`
-* `skyb_solve kind A perm b y0 x0`   the same with `static_matrix<Q,2,2>` values / `static_matrix<Q,2,1>` right-hand sides
-* `inv_dense n A t p`                `detail::inverse` on its three buffers
-* `sm_lin N M c a b` · `sm_mul N P M a b` · `sm_assoc N P M L a b c` · `sm_distrib N P M a b c` ·
-  `sm_inner N M x y` · `sm_inverse N a`      static_matrix arithmetic
-* `cmk_check rev A perm`             V-grade: `isPermB` on the output of `cuthill_mckee<rev>::get`
-* `qr_check arith order m n A Qk R`      V-grade: exact / tolerance QR predicates on the output of `QR::factorize`
-* `qr_solve_check arith order m n A b x`  V-grade: normal equations (tall) / residual (wide) of `QR::solve`
+* `direct_sky_solve  kind A perm b y0 x0`   scalar skyline LU: constructor (with the ordering `perm` as input) + `operator()`
+* `direct_skyb_solve kind A perm b y0 x0`   the same with `static_matrix<Q,2,2>` values / `static_matrix<Q,2,1>` right-hand sides
+* `direct_inv_dense n A t p`                `detail::inverse` on its three buffers
+* `direct_sm_lin N M c a b` · `direct_sm_mul N P M a b` · `direct_sm_assoc N P M L a b c` · `direct_sm_distrib N P M a b c` ·
+  `direct_sm_inner N M x y` · `direct_sm_inverse N a`      static_matrix arithmetic
+* `direct_cmk_check rev A perm`             V-grade: `isPermB` on the output of `cuthill_mckee<rev>::get`
+* `direct_qr_check arith order m n A Qk R`      V-grade: exact / tolerance QR predicates on the output of `QR::factorize`
+* `direct_qr_solve_check arith order m n A b x`  V-grade: normal equations (tall) / residual (wide) of `QR::solve`
 -/
 namespace Amgcl.Driver.Direct
 open Amgcl Amgcl.Driver
@@ -61,18 +61,18 @@ def pDense (m n : Nat) : P (Dense Rat) := do
 
 def handle (op : String) (args : List String) : Option String :=
   match op with
-  | "sky_solve" =>
+  | "direct_sky_solve" =>
     withArgs (do let kind ← pNat; let A ← pCRS; let perm ← pNatVec; let b ← pVec; let y0 ← pVec; let x0 ← pVec
                  pure (kind, A, perm, b, y0, x0)) args
       fun (kind, A, perm, b, y0, x0) =>
         skyRun (V := Rat) (R := Rat) (fun v => v == 0) (fun v => 1 / v) showVec showVec kind A perm b y0 x0
-  | "skyb_solve" =>
+  | "direct_skyb_solve" =>
     withArgs (do let kind ← pNat; let A ← pCRSOf (pSMat 2 2); let perm ← pNatVec; let b ← pSVec 2 1
                  let y0 ← pSVec 2 1; let x0 ← pSVec 2 1; pure (kind, A, perm, b, y0, x0)) args
       fun (kind, A, perm, b, y0, x0) =>
         let _ : Mul B22 := ⟨SMat.mul⟩
         skyRun (V := B22) (R := B21) SMat.isZero SMat.inverse showSVec showSVec kind A perm b y0 x0
-  | "inv_dense" =>
+  | "direct_inv_dense" =>
     withArgs (do let n ← pNat; let A ← pVec; let t ← pVec; let p ← pNatVec; pure (n, A, t, p)) args
       fun (n, A, t, p) =>
         if !(n ≥ 1 && A.size == n * n && t.size == n * n && p.size == n) then badInput else
@@ -80,7 +80,7 @@ def handle (op : String) (args : List String) : Option String :=
         if (List.range n).any (fun i => get2 n F (q.getD i 0) i == 0) then "singular" else
         let (A', t', p') := inverse n A t p
         joinSp [showVec A', showVec t', showNatVec p']
-  | "sm_lin" =>
+  | "direct_sm_lin" =>
     match args with
     | sN :: sM :: rest =>
       match sN.toNat?, sM.toNat? with
@@ -92,7 +92,7 @@ def handle (op : String) (args : List String) : Option String :=
                                    showRat (rsqrt (absRat (SMat.normSq id a)))]
       | _, _ => some badInput
     | _ => some badInput
-  | "sm_mul" =>
+  | "direct_sm_mul" =>
     match args with
     | sN :: sP :: sM :: rest =>
       match sN.toNat?, sP.toNat?, sM.toNat? with
@@ -102,7 +102,7 @@ def handle (op : String) (args : List String) : Option String :=
           fun (a, b) => joinSp [showSMat (a * b), showSMat (SMat.adjoint id (a * b))]
       | _, _, _ => some badInput
     | _ => some badInput
-  | "sm_assoc" =>
+  | "direct_sm_assoc" =>
     match args with
     | sN :: sP :: sM :: sL :: rest =>
       match sN.toNat?, sP.toNat?, sM.toNat?, sL.toNat? with
@@ -113,7 +113,7 @@ def handle (op : String) (args : List String) : Option String :=
           fun (a, b, c) => joinSp [showSMat ((a * b) * c), showSMat (a * (b * c))]
       | _, _, _, _ => some badInput
     | _ => some badInput
-  | "sm_distrib" =>
+  | "direct_sm_distrib" =>
     match args with
     | sN :: sP :: sM :: rest =>
       match sN.toNat?, sP.toNat?, sM.toNat? with
@@ -123,7 +123,7 @@ def handle (op : String) (args : List String) : Option String :=
           fun (a, b, c) => joinSp [showSMat (a * (b + c)), showSMat (a * b + a * c), showSMat (a * (b - c))]
       | _, _, _ => some badInput
     | _ => some badInput
-  | "sm_inner" =>
+  | "direct_sm_inner" =>
     match args with
     | sN :: sM :: rest =>
       match sN.toNat?, sM.toNat? with
@@ -137,7 +137,7 @@ def handle (op : String) (args : List String) : Option String :=
             fun (x, y) => showSMat (SMat.innerMat id x y)
       | _, _ => some badInput
     | _ => some badInput
-  | "sm_inverse" =>
+  | "direct_sm_inverse" =>
     match args with
     | sN :: rest =>
       match sN.toNat? with
@@ -149,12 +149,12 @@ def handle (op : String) (args : List String) : Option String :=
           showSMat (SMat.inverse a)
       | _ => some badInput
     | _ => some badInput
-  | "cmk_check" =>
+  | "direct_cmk_check" =>
     withArgs (do let rev ← pNat; let A ← pCRS; let perm ← pNatVec; pure (rev, A, perm)) args
       fun (rev, A, perm) =>
         if !(rev ≤ 1 && A.nrows ≥ 1 && A.ncols == A.nrows && A.wfb) then badInput else
         showBool (isPermB A.nrows perm)
-  | "qr_check" =>
+  | "direct_qr_check" =>
     match args with
     | sA :: sO :: sm :: sn :: rest =>
       match sA.toNat?, sO.toNat?, sm.toNat?, sn.toNat? with
@@ -166,7 +166,7 @@ def handle (op : String) (args : List String) : Option String :=
                     showBool (Dense.upperTri R)]
       | _, _, _, _ => some badInput
     | _ => some badInput
-  | "qr_solve_check" =>
+  | "direct_qr_solve_check" =>
     match args with
     | sA :: sO :: sm :: sn :: rest =>
       match sA.toNat?, sO.toNat?, sm.toNat?, sn.toNat? with
